@@ -279,7 +279,7 @@ def run_units(units, nproc=None, timeout=10, retry=60, want_both=False, only_pro
         hits, todo = _verdict_cache_load(items, tag)
     verdicts, nuniq = discharge_all([(k, t) for k, t, _ in todo], timeout=timeout, retry=retry, want_both=want_both)
     for k, t, p in todo:
-        if p is not None and verdicts[k]["result"] in ("unsat", "sat", "unknown"):
+        if p is not None and verdicts[k]["result"] in ("unsat", "sat"):
             try:
                 os.makedirs(CACHE_DIR, exist_ok=True)
                 with open(p + f".{os.getpid()}.tmp", "wb") as f:
@@ -300,7 +300,7 @@ def run_units(units, nproc=None, timeout=10, retry=60, want_both=False, only_pro
         fhits, ftodo = ({}, [(k, t, None) for k, t in again]) if os.environ.get("PYVC_NOCACHE") else _verdict_cache_load(again, ftag)
         fver, _ = discharge_all([(k, t) for k, t, _ in ftodo], timeout=timeout, retry=retry, want_both=want_both)
         for k, t, pth in ftodo:
-            if pth is not None and fver[k]["result"] in ("unsat", "sat", "unknown"):
+            if pth is not None and fver[k]["result"] in ("unsat", "sat"):
                 try:
                     with open(pth + f".{os.getpid()}.tmp", "wb") as f:
                         pickle.dump(fver[k], f)
@@ -312,6 +312,22 @@ def run_units(units, nproc=None, timeout=10, retry=60, want_both=False, only_pro
             v["attempts"] = verdicts[k]["attempts"] + [("full-scope",) + tuple(a) for a in v["attempts"]]
             v["time"] += verdicts[k]["time"]
             verdicts[k] = v
+    # rescue stage: a handful of queries that every stage left undecided get long, load-scaled budgets (few at a time).
+    # Many open queries mean a real failure, not a busy machine - they are not retried.
+    open_keys = [k for k, v in verdicts.items() if v["result"] not in ("unsat", "sat")]
+    by_text = {}
+    for (ri, oi) in open_keys:
+        ob = reports[ri]["obligs"][oi]
+        by_text.setdefault(ob["smt2"], ([ob["smt2"]] + ([ob["smt2_full"]] if ob.get("smt2_full") else []), []))[1].append((ri, oi))
+    if 0 < len(by_text) <= int(os.environ.get("PYVC_RESCUE_MAX", "8")):
+        from .discharge import rescue
+        res = rescue([(t, variants) for t, (variants, _) in by_text.items()])
+        for t, v in res.items():
+            for k in by_text[t][1]:
+                v2 = dict(v)
+                v2["attempts"] = verdicts[k]["attempts"] + list(v["attempts"])
+                v2["time"] = verdicts[k]["time"] + v["time"]
+                verdicts[k] = v2
     verdicts.update(vacuous)
     nuniq += len({t for k, t in items if k in hits})
     table = {}
